@@ -1,6 +1,7 @@
 package main
 
 import (
+	"sort"
 	"go/constant"
 	"fmt"
 	"go/token"
@@ -221,9 +222,43 @@ func (s *Session) execCallWith(st *State, c *ssa.CallCommon, fnv Value, args []V
 		k(st, s.freshResults(st, sig, rel))
 		return
 	}
-	// (a havoc-all default here was tried: one missing contract then fails dozens of unrelated
-	// obligations by time-out; the single binding failure below is the clearer report)
-	fatalf("%s: callee %s has no contract and cannot be inlined (at %s)", s.name, qn, s.P.pos(pos))
+	// An in-module callee without contract that cannot be inlined (it has a loop, or is large). Default
+	// contract: it may modify exactly the heap entries its body (and the bodies / contracts of what it
+	// calls, to depth 4) can store to — havocked as whole entries — and its results are arbitrary. A
+	// helper that only reads therefore does not disturb the caller; obligations that depend on what the
+	// helper computes or writes fail under their own names. (Havocking EVERYTHING here was tried and
+	// rejected: one missing contract then fails dozens of unrelated obligations by time-out.)
+	tmp := &loopInfo{keys: map[string]Sort{}, blocks: map[*ssa.BasicBlock]bool{}}
+	for _, b := range callee.Blocks {
+		for _, in := range b.Instrs {
+			s.modOfInstr(in, tmp, map[*ssa.Alloc]bool{}, 1)
+		}
+	}
+	if tmp.modAll {
+		s.note("default contract for " + qn + " (no contract, not inlinable): may modify everything")
+		s.havocAll(st)
+	} else {
+		var ks []string
+		for k := range tmp.keys {
+			ks = append(ks, k)
+		}
+		sort.Strings(ks)
+		s.note(fmt.Sprintf("default contract for %s (no contract, not inlinable): modifies %v, results arbitrary", qn, ks))
+		for _, k := range ks {
+			if so, ok := s.hsort[k]; ok || tmp.keys[k] != "" {
+				if !ok {
+					s.heapSort(k, tmp.keys[k])
+					so = tmp.keys[k]
+				}
+				_ = so
+				s.havocKey(st, k)
+			}
+		}
+	}
+	if s.rg != nil {
+		s.rgHavoc(st)
+	}
+	k(st, s.freshResults(st, sig, rel))
 }
 
 func (s *Session) note(msg string) {
